@@ -207,7 +207,15 @@ def build_python(spec: ModelSpec, share_ops=True, share_circuits=False):
             p = (prefix + '/' + h) if prefix else h
             circuits[h] = build_level(p, rest, h)
         inner = [e for e in spec.edges if _inside(e, prefix, leaf=False)]
-        return CircuitTemplate(lvl_name, circuits=circuits, edges=[_strip(edge_tuple(e), prefix) for e in inner])
+        etups = [_strip(edge_tuple(e), prefix) for e in inner]
+        if share_circuits and prefix:
+            # identical mid-level circuits (same sub-circuit objects, same relative edges) become ONE object as well
+            sig = ('mid', tuple((h, id(t)) for h, t in circuits.items()),
+                   tuple((a, b, id(c), tuple(sorted((k, str(v)) for k, v in d.items()))) for a, b, c, d in etups))
+            if sig not in _shared_circuits:
+                _shared_circuits[sig] = CircuitTemplate(lvl_name, circuits=circuits, edges=etups)
+            return _shared_circuits[sig]
+        return CircuitTemplate(lvl_name, circuits=circuits, edges=etups)
 
     def _node_of(path):
         return path.rsplit('/', 2)[0]
